@@ -141,11 +141,11 @@ def intervalFields : Nat → String
   | 10 => "HOUR TO MINUTE" | 11 => "HOUR TO SECOND" | _ => "MINUTE TO SECOND"
 
 def opt1 (base : String) : Option Nat → Pieces
-  | some n => [S (base ++ "("), num n, S ")"]
+  | some n => [S base, S "(", num n, S ")"]
   | none => [S base]
 
 def opt2 (base : String) : Option (Nat × Nat) → Pieces
-  | some (p, s) => [S (base ++ "("), num p, S ", ", num s, S ")"]
+  | some (p, s) => [S base, S "(", num p, S ", ", num s, S ")"]
   | none => [S base]
 
 def rEnumVariants : Bool → List String → Pieces
@@ -467,26 +467,35 @@ def rCreate (d : Backend) (c : Create) : Pieces :=
 
 /-! ## ALTER TABLE -/
 
+/-- specifications that write no ALTER TABLE action of their own (Postgres `ModifyColumn`) -/
+def pgWritesNothing : Spec → Bool
+  | .autoIncrement | .generated _ _ | .comment _ => true
+  | _ => false
+
+def pgIsUsing : Spec → Bool
+  | .using _ => true
+  | _ => false
+
+/-- the ALTER TABLE action Postgres writes for one specification of a modified column -/
+def pgAction (name : String) : Spec → Pieces
+  | .autoIncrement => []
+  | .null => [S "ALTER COLUMN ", .id name, S " DROP NOT NULL"]
+  | .notNull => [S "ALTER COLUMN ", .id name, S " SET NOT NULL"]
+  | .default e => [S "ALTER COLUMN ", .id name, S " SET DEFAULT "] ++ rEx .postgres e
+  | .unique => [S "ADD UNIQUE (", .id name, S ")"]
+  | .primaryKey => [S "ADD PRIMARY KEY (", .id name, S ")"]
+  | .check e => [S "ADD "] ++ rCheck .postgres e
+  | .generated _ _ => []
+  | .extra t => [.raw t.toList]
+  | .comment _ => []
+  | .using e => [S " USING "] ++ rEx .postgres e
+
 /-- Postgres `ModifyColumn`: one action per specification; `first` = nothing has been written yet -/
 def rPgModifySpecs (name : String) : Bool → List Spec → Pieces
   | _, [] => []
   | first, s :: r =>
-    let writesNothing := match s with | .autoIncrement | .generated _ _ | .comment _ => true | _ => false
-    let isUsing := match s with | .using _ => true | _ => false
-    (if !first && !writesNothing && !isUsing then [S ", "] else []) ++
-    (match s with
-     | .autoIncrement => []
-     | .null => [S "ALTER COLUMN ", .id name, S " DROP NOT NULL"]
-     | .notNull => [S "ALTER COLUMN ", .id name, S " SET NOT NULL"]
-     | .default e => [S "ALTER COLUMN ", .id name, S " SET DEFAULT "] ++ rEx .postgres e
-     | .unique => [S "ADD UNIQUE (", .id name, S ")"]
-     | .primaryKey => [S "ADD PRIMARY KEY (", .id name, S ")"]
-     | .check e => [S "ADD "] ++ rCheck .postgres e
-     | .generated _ _ => []
-     | .extra t => [.raw t.toList]
-     | .comment _ => []
-     | .using e => [S " USING "] ++ rEx .postgres e) ++
-    rPgModifySpecs name (first && writesNothing) r
+    (if !first && !pgWritesNothing s && !pgIsUsing s then [S ", "] else []) ++ pgAction name s ++
+      rPgModifySpecs name (first && pgWritesNothing s) r
 
 def rAlterOpt (d : Backend) : AlterOpt → Pieces
   | .add c ine =>
